@@ -1302,6 +1302,20 @@ void ErrorAnalyzer::decompose_helper_add_error_combinations(
             if (!mono_buf.tail.empty()) {
                 mono_buf.tail.ptr_end -= 1;
             }
+
+            // The components were picked by their detectors alone. When two candidate components share their
+            // detectors but differ in observables, the pick can have the wrong frame changes. Keep the case
+            // undecomposed then, so the global pass (which does account for observables) handles it.
+            SparseXorVec<DemTarget> recombined;
+            for (const auto &t : mono_buf.tail) {
+                if (!t.is_separator()) {
+                    recombined.xor_item(t);
+                }
+            }
+            if (!(recombined.range() == stored_ids[k])) {
+                mono_buf.discard_tail();
+                mono_buf.append_tail(stored_ids[k]);
+            }
             stored_ids[k] = mono_dedupe_store_tail(tag).targets;
         }
     }
